@@ -620,7 +620,17 @@ class Graph(object):
         is_true : `bool`
             If the graph is a tree.
         """
-        return not self.has_cycles() and self.n_edges == self.n_vertices - 1
+        # acyclic with n_vertices - 1 edges is a tree only if it is connected
+        # (a directed graph can be acyclic in the directed sense and still
+        # have an undirected cycle next to an isolated vertex)
+        return (
+            not self.has_cycles()
+            and self.n_edges == self.n_vertices - 1
+            and csgraph.connected_components(
+                self.adjacency_matrix, directed=False, return_labels=False
+            )
+            == 1
+        )
 
     def _check_vertex(self, vertex):
         r"""
